@@ -461,6 +461,8 @@ def check_compound(ctx, case):
               'no_density_atoms': [[Z, A] for Z, A, _q, _n in case['atoms'] if (Z, A) in _state['no_density']]}
     if _is_none_triple(got):
         ctx.evaluated(what='none-triple')
+        if detail['no_density_atoms']:
+            detail['sibling_ok'] = _sibling_without(ctx, case, detail['no_density_atoms'])
         ctx.violation('%s returned (None, None, None) although every atom has tabulated neutron data' % label,
                       symptom='none', **detail)
         _drain(ctx, label)
@@ -475,6 +477,35 @@ def check_compound(ctx, case):
             ctx.violation('%s: neutron_sld gives %r, neutron_scattering()[0] gives %r' % (label, sld, got[0]),
                           symptom='sld-vs-scattering', **detail)
     _drain(ctx, label)
+
+
+def _sibling_without(ctx, case, drop):
+    """The same call with the atoms *drop* removed: True when it agrees with the reference, False when it does
+    not, None when nothing is left.  Used only to keep a known-finding classifier narrow."""
+    import periodictable as pt
+    from ..ref.neutron import compare7, flatten7
+    m = _state['model']
+    sib = dict(case)
+    sib['atoms'] = [a for a in case['atoms'] if a[:2] not in drop]
+    sib['form'] = 'dict'
+    if not sib['atoms']:
+        return None
+    try:
+        compound, kw, ws, shape = _call_args(sib)
+        got = pt.neutron_scattering(compound, **kw)
+        if _is_none_triple(got):
+            return False
+        flat = flatten7(got, shape)
+        counts = _counts(sib)
+        rho = _model_density(sib, counts)
+        for i, w in enumerate(ws):
+            ref, floors = m.reference_with_floors(counts, rho, w)
+            bad, _w, _f = compare7([float(x[i]) if shape else float(x) for x in flat], ref, floors, rel=REL)
+            if bad:
+                return False
+        return True
+    except Exception:
+        return False
 
 
 def check_direct(ctx, case):
@@ -638,6 +669,6 @@ def classify(rec):
         return 'c03.eu151-bc-complex'
     # Ra / Ra-226: b_c, sigma_s, sigma_a tabulated, element density unknown -> has_sld() False -> None triple
     if (rec.get('check') == 'compound' and d.get('symptom') == 'none' and case.get('family') == 'no_element_density'
-            and d.get('no_density_atoms')):
+            and d.get('no_density_atoms') and d.get('sibling_ok') is not False):
         return 'c03.data-but-no-element-density'
     return None
